@@ -15,7 +15,11 @@ from . import simruns as R
 PB, PS = 100, 10
 TFNAME = {1: '1m', 3: '3m', 5: '5m', 15: '15m'}
 NOROW = {"q": 0, "p": 0}
-NOENTRY = {"dir": 0, "r1": NOROW, "r2": NOROW, "mode": "none", "sl": 0, "tp": 0, "d": 0}
+NOENTRY = {"dir": 0, "r1": NOROW, "r2": NOROW, "mode": "none", "sl": 0, "tp": 0, "d": 0, "half": False}
+
+
+def tpq(q, half):
+    return max(1, int(q) // 2) if half else q
 IDLE = {"cancel": False, "close": False, "edit": 0, "entry": NOENTRY}
 
 
@@ -23,17 +27,27 @@ def P(x):
     return float(PB + PS * x)
 
 
+MAXDEN = 20000
+
+
+def _snap(x):
+    """the rational with a small denominator that the double stands for.  Scenario quantities make every model value a
+    rational with denominator <= 3 * 64 * 2; the simulators compute it in doubles (exact when dyadic, within a few ulps when
+    thirds appear), so the nearest fraction with denominator <= 20000 is that value; anything farther than 1e-7 is refused."""
+    f = Fraction(float(x)).limit_denominator(MAXDEN)
+    if abs(float(f) - float(x)) > 1e-7 * max(1.0, abs(float(x))):
+        raise Machinery("value %r is not close to a rational with denominator <= %d" % (x, MAXDEN))
+    return f
+
+
 def rat(x):
-    """exact rational of a double as [num, den]"""
-    f = Fraction(float(x))
-    if abs(f.numerator) > 2 ** 31 - 1 or f.denominator > 2 ** 31 - 1:
-        raise Machinery("value %r does not fit a 31-bit rational (scenario numbers are meant to be dyadic)" % (x,))
+    f = _snap(x)
     return [f.numerator, f.denominator]
 
 
 def lat_rat(price):
-    """real price -> exact rational of the lattice coordinate"""
-    f = (Fraction(float(price)) - PB) / PS
+    """real price -> rational of the lattice coordinate"""
+    f = (_snap(price) - PB) / PS
     return [f.numerator, f.denominator]
 
 
@@ -69,7 +83,7 @@ def whole_strategy(rows, hooks):
             if e['mode'] == 'go':
                 tot = e['r1']['q'] + e['r2']['q']
                 self.stop_loss = tot, P(e['sl'])
-                self.take_profit = tot, P(e['tp'])
+                self.take_profit = tpq(tot, e['half']), P(e['tp'])
             return rows_
 
         def go_long(self):
@@ -91,11 +105,11 @@ def whole_strategy(rows, hooks):
             q = abs(self.position.qty)
             if e['mode'] == 'open':
                 self.stop_loss = q, P(e['sl'])
-                self.take_profit = q, P(e['tp'])
+                self.take_profit = tpq(q, e['half']), P(e['tp'])
             elif e['mode'] == 'rel':
                 sg = 1 if self.position.qty > 0 else -1
                 self.stop_loss = q, self.price - sg * e['d'] * PS
-                self.take_profit = q, self.price + sg * e['d'] * PS
+                self.take_profit = tpq(q, e['half']), self.price + sg * e['d'] * PS
 
         def on_increased_position(self, order):
             hooks.append('inc')
@@ -105,7 +119,7 @@ def whole_strategy(rows, hooks):
                 slp = float(np.array(self.stop_loss, dtype=float).reshape(-1, 2)[0][1])
                 tpp = float(np.array(self.take_profit, dtype=float).reshape(-1, 2)[0][1])
                 self.stop_loss = q, slp
-                self.take_profit = q, tpp
+                self.take_profit = tpq(q, e['half']), tpp
 
         def on_reduced_position(self, order):
             hooks.append('red')
@@ -214,12 +228,30 @@ def whole_trace(tid, sc, rn, rf):
             "norm": {k: rn[k] for k in keep}, "fast": {k: rf[k] for k in keep}}
 
 
-def whole_cfg(ctx_dir, sc):
+def whole_cfg(ctx_dir, sc, liqfix=False):
     path = "%s/TraceSimWhole-%d-%d-%d-%d.cfg" % (ctx_dir, sc["start"], sc["lev"], sc["fee"][0], sc["fee"][1])
     with open(path, "w") as f:
-        f.write("SPECIFICATION Spec\nCONSTANTS PB = %d PS = %d Lev = %d FeeNum = %d FeeDen = %d Start = %d DayLen = 1440\n"
-                "INVARIANT Report\nCHECK_DEADLOCK FALSE\n" % (PB, PS, sc["lev"], sc["fee"][0], sc["fee"][1], sc["start"]))
+        f.write("SPECIFICATION Spec\nCONSTANTS PB = %d PS = %d Lev = %d FeeNum = %d FeeDen = %d Start = %d DayLen = 1440 LiqFix = %s\n"
+                "INVARIANT Report\nCHECK_DEADLOCK FALSE\n" % (PB, PS, sc["lev"], sc["fee"][0], sc["fee"][1], sc["start"],
+                                                               "TRUE" if liqfix else "FALSE"))
     return path
+
+
+F_ = lambda o, c, h, l: {"o": o, "c": c, "h": h, "l": l}
+# long 2 at the market, take-profit for half at 3, price comes back to 3 and the user calls liquidate(): the declared
+# (1, price) equals the stale copy of the executed take-profit
+CANON_LIQ = {"tf": 1, "chunk": 1, "K": 4, "start": 2000, "lev": 1, "fee": [0, 1], "hist": [
+    {"raw": [F_(2, 2, 2, 2)], "row": {"cancel": False, "close": False, "edit": 0,
+                                      "entry": {"dir": 1, "r1": {"q": 2, "p": 2}, "r2": NOROW, "mode": "go", "sl": 1, "tp": 3, "d": 0, "half": True}}},
+    {"raw": [F_(2, 3, 3, 2)], "row": IDLE}, {"raw": [F_(3, 2, 3, 2)], "row": IDLE},
+    {"raw": [F_(2, 3, 3, 2)], "row": {"cancel": False, "close": True, "edit": 0, "entry": NOENTRY}},
+    {"raw": [F_(3, 3, 3, 3)], "row": IDLE}]}
+
+
+def detect_liqfix():
+    """does liquidate() close the position in the stale-copy situation?  (an input of the model, not a verdict)"""
+    (rn, rf), = run_wholes([CANON_LIQ])
+    return rn["exc"] == "run" and len(rn["proj"]) >= 4 and rn["proj"][3]["q"] == 0
 
 
 # ------------------------------------------------------------------------------------------------ random scenarios
@@ -244,7 +276,7 @@ def rand_entry(rng, K, cur):
     r2 = {"q": q, "p": ps[1]} if len(ps) > 1 else NOROW
     lo, hi = min(ps), max(ps)
     mode = rng.choice(["go", "open", "rel"])
-    e = {"dir": d, "r1": r1, "r2": r2, "mode": mode, "sl": 0, "tp": 0, "d": 0}
+    e = {"dir": d, "r1": r1, "r2": r2, "mode": mode, "sl": 0, "tp": 0, "d": 0, "half": rng.random() < 0.3}
     if mode == "rel":
         e["d"] = rng.randint(1, max(1, K // 2))
     else:
@@ -262,7 +294,7 @@ def rand_whole(rng, pad=False):
     steps = rng.randint(3, 8 if tf < 15 else 3)
     gap_p = rng.choice([0.0, 0.2, 0.5])
     start = rng.choice([400, 700, 2000])
-    sc = {"tf": tf, "chunk": chunk, "K": K, "start": start, "lev": rng.choice([1, 2]), "fee": rng.choice([[0, 1], [1, 256], [1, 64]])}
+    sc = {"tf": tf, "chunk": chunk, "K": K, "start": start, "lev": rng.choice([1, 2]), "fee": rng.choice([[0, 1], [1, 16], [1, 64]])}
     hist, prev, m = [], 0, 0
     if pad:
         x = rng.randint(2, K - 1)
